@@ -420,7 +420,7 @@ class MultiNestedTensor(_MultiTensor):
             col_start_idx = 0
             for x in xs:
                 offset_start_idx = col_start_idx + torch.arange(
-                    0, num_rows * num_cols, num_cols, device=device)
+                    num_rows, device=device) * num_cols
                 offset_start = offset[offset_start_idx]
                 offset_end_idx = offset_start_idx + x.num_cols
                 offset_end = offset[offset_end_idx]
